@@ -40,3 +40,18 @@ func (s *DiscoveryServer) SetDebounceForVerif(debounceAfter, debounceMax time.Du
 	s.DebounceOptions.debounceMax = debounceMax
 	s.DebounceOptions.enableEDSDebounce = enableEDSDebounce
 }
+
+// PushQueueConnectionsForVerif lists the IDs of the connections that are queued for a push
+// and of those that have been dequeued but not yet marked done.
+func (s *DiscoveryServer) PushQueueConnectionsForVerif() (pending, processing []string) {
+	p := s.pushQueue
+	p.cond.L.Lock()
+	defer p.cond.L.Unlock()
+	for c := range p.pending {
+		pending = append(pending, c.ID())
+	}
+	for c := range p.processing {
+		processing = append(processing, c.ID())
+	}
+	return pending, processing
+}
